@@ -70,13 +70,26 @@ Proof.
     cbn -[N.eqb]. rewrite Hr. reflexivity.
 Qed.
 
+(** the symbols `+` `-` need nothing after them; the words are whole words (followed by whitespace,
+    since fix a6b1cfe: `fields only_x` is the field `only_x`) *)
 Theorem fields_mode_synonyms (r : str) :
+  (match r with c :: _ => is_space c | [] => false end) = true ->
   fields_mode (lit "+" ++ r) = POk true r /\ fields_mode (lit "only" ++ r) = POk true r /\
   fields_mode (lit "include" ++ r) = POk true r /\
   fields_mode (lit "-" ++ r) = POk false r /\ fields_mode (lit "except" ++ r) = POk false r /\
   fields_mode (lit "drop" ++ r) = POk false r.
 Proof.
-  repeat split; reflexivity.
+  intros Hr. destruct r as [|c r']; [discriminate Hr|].
+  unfold fields_mode. repeat split; cbn -[is_space]; rewrite ?Hr; reflexivity.
+Qed.
+
+(** a field whose name merely starts with a mode word is a field, not a mode *)
+Theorem fields_mode_not_a_prefix (c : N) (r : str) :
+  is_space c = false ->
+  fields_mode (lit "only" ++ c :: r) = PFail /\ fields_mode (lit "include" ++ c :: r) = PFail /\
+  fields_mode (lit "except" ++ c :: r) = PFail /\ fields_mode (lit "drop" ++ c :: r) = PFail.
+Proof.
+  intros Hc. unfold fields_mode. repeat split; cbn -[is_space]; rewrite ?Hc; reflexivity.
 Qed.
 
 Theorem neq_synonyms (r : str) :
